@@ -60,6 +60,8 @@ def case(cid, rng, cfg):
         else:
             perm = rng.permutation(n); h = int(rng.integers(3, n - 2))
             f1, f2 = np.sort(perm[:h]), np.sort(perm[h:])
+            if n >= 8 and rng.random() < 0.4:
+                f2 = f2[:-1]                    # an explicit split need not cover all samples: the two index sets are used as given
             cvarg = [(f1, f2)]; kw = {}
         folds = [X[f1], X[f2], X]
         ok = True
